@@ -143,7 +143,7 @@ WRITERS_UNDER_CONTRACT = {'handleStanza', 'onPasswordReply', 'onSasl2Authenticat
 
 
 def build(work, tier):
-    prewarm([(path(IC), 'QXmppIncomingClient'), (path(IC), 'XmppSocket'), (path(IC), 'QXmppPasswordRe'), (path(PC), 'QXmppPasswordRequest::'), (path(PC), 'QXmppPasswordReply::'), (path(PC), 'QXmppPasswordChecker::checkPassword'), (path(SASL), 'QXmppSaslServerPlain::respond'), (path(SASL), 'QXmppSaslServerAnonymous::respond'), (path(SASL), 'QXmppSaslServerPlain::mechanism'), (path(SASL), 'QXmppSaslServerAnonymous::mechanism'), (path(SASL), 'QXmppSaslServerDigestMd5::mechanism'), (path(IC), 'QXmppIq')])
+    prewarm([(path(IC), 'QXmppIncomingClient'), (path(IC), 'XmppSocket'), (path(IC), 'QXmppPasswordRe'), (path(PC), 'QXmppPasswordRequest::'), (path(PC), 'QXmppPasswordReply::'), (path(PC), 'QXmppPasswordChecker::checkPassword'), (path(PC), 'QXmppPasswordChecker::getDigest'), (path(SASL), 'QXmppSaslServerPlain::respond'), (path(SASL), 'QXmppSaslServerAnonymous::respond'), (path(SASL), 'QXmppSaslServerPlain::mechanism'), (path(SASL), 'QXmppSaslServerAnonymous::mechanism'), (path(SASL), 'QXmppSaslServerDigestMd5::mechanism'), (path(IC), 'QXmppIq')])
     # ------------------------------------------------------------------ the connection's private record, from the real class
     fields, pdecl = ctx.record_fields(path(IC), 'QXmppIncomingClient', 'QXmppIncomingClientPrivate')
     fd = dict(fields)
@@ -187,6 +187,7 @@ def build(work, tier):
     low(IC, 'QXmppIncomingClient', 'onSasl2Authenticated', 'QXmppIncomingClient_onSasl2Authenticated', 'QXmppIncomingClient', 'onSasl2Authenticated.spec')
     low(IC, 'QXmppIncomingClient', 'checkCredentials', 'QXmppIncomingClientPrivate_checkCredentials', 'QXmppIncomingClientPrivate', 'checkCredentials.spec')
     low(PC, 'QXmppPasswordChecker::checkPassword', 'checkPassword', 'QXmppPasswordChecker_checkPassword_base', 'QXmppPasswordChecker', 'checkPassword.spec')
+    low(PC, 'QXmppPasswordChecker::getDigest', 'getDigest', 'QXmppPasswordChecker_getDigest_base', 'QXmppPasswordChecker', 'getDigest.spec')
     low(SASL, 'QXmppSaslServerPlain::respond', 'respond', 'QXmppSaslServerPlain_respond', 'QXmppSaslServer', 'plainRespond.spec')
     low(SASL, 'QXmppSaslServerAnonymous::respond', 'respond', 'QXmppSaslServerAnonymous_respond', 'QXmppSaslServer', 'anonymousRespond.spec')
     for cls, mech in (('QXmppSaslServerPlain', 'PLAIN'), ('QXmppSaslServerAnonymous', 'ANONYMOUS'), ('QXmppSaslServerDigestMd5', 'DIGEST-MD5')):
@@ -207,6 +208,7 @@ def build(work, tier):
                                          (PC, 'QXmppPasswordRequest::', 'username', 'QXmppPasswordRequest_username', 'QXmppPasswordRequest'),
                                          (PC, 'QXmppPasswordRequest::', 'password', 'QXmppPasswordRequest_password', 'QXmppPasswordRequest'),
                                          (PC, 'QXmppPasswordReply::', 'setError', 'QXmppPasswordReply_setError', 'QXmppPasswordReply'),
+                                         (PC, 'QXmppPasswordReply::', 'setDigest', 'QXmppPasswordReply_setDigest', 'QXmppPasswordReply'),
                                          (PC, 'QXmppPasswordReply::', 'error', 'QXmppPasswordReply_error', 'QXmppPasswordReply'),
                                          (PC, 'QXmppPasswordReply::', 'digest', 'QXmppPasswordReply_digest', 'QXmppPasswordReply')):
         low(src, filt, name, cname, this)
@@ -231,7 +233,7 @@ def build(work, tier):
     saslver_defs = '\n'.join('#define SASLVER_%s %d' % (k, v) for k, v in saslver.items())
     iq_types = ctx.enum_values(path(IC), 'QXmppIq::Type')
     pre_defs = '#define IQ_TYPE_GET %d' % iq_types['Get']
-    main_fns = ['QXmppSaslServerPlain_mechanism', 'QXmppSaslServerAnonymous_mechanism', 'QXmppSaslServerDigestMd5_mechanism', 'QXmppSaslServerPlain_respond', 'QXmppSaslServerAnonymous_respond', 'QXmppPasswordChecker_checkPassword_base', 'QXmppIncomingClientPrivate_checkCredentials', 'QXmppIncomingClient_onSasl2Authenticated', 'QXmppIncomingClient_handleStanza',
+    main_fns = ['QXmppSaslServerPlain_mechanism', 'QXmppSaslServerAnonymous_mechanism', 'QXmppSaslServerDigestMd5_mechanism', 'QXmppSaslServerPlain_respond', 'QXmppSaslServerAnonymous_respond', 'QXmppPasswordChecker_checkPassword_base', 'QXmppPasswordChecker_getDigest_base', 'QXmppIncomingClientPrivate_checkCredentials', 'QXmppIncomingClient_onSasl2Authenticated', 'QXmppIncomingClient_handleStanza',
                 'QXmppIncomingClient_onPasswordReply', 'QXmppIncomingClient_onDigestReply']
     protos = '\n'.join(lowered[f].split('\n')[0] + ';' for f in main_fns + helpers)
     seen_ctx = set()
@@ -247,6 +249,7 @@ void h_anonymousRespond(void) { gh_havoc(); QXmppSaslServer *self; qbytes reques
 void h_mechPlain(void) { const QXmppSaslServer *self; QXmppSaslServerPlain_mechanism(self); }
 void h_mechAnonymous(void) { const QXmppSaslServer *self; QXmppSaslServerAnonymous_mechanism(self); }
 void h_mechDigest(void) { const QXmppSaslServer *self; QXmppSaslServerDigestMd5_mechanism(self); }
+void h_getDigest(void) { gh_havoc(); QXmppPasswordChecker *self; const QXmppPasswordRequest *request; QXmppPasswordChecker_getDigest_base(self, request); }
 void h_checkPassword(void) { gh_havoc(); QXmppPasswordChecker *self; const QXmppPasswordRequest *request; QXmppPasswordChecker_checkPassword_base(self, request); }
 void h_checkCredentials(void) { gh_havoc(); QXmppIncomingClientPrivate *self; qbytes response; QXmppIncomingClientPrivate_checkCredentials(self, response); }
 '''
@@ -277,6 +280,8 @@ void h_checkCredentials(void) { gh_havoc(); QXmppIncomingClientPrivate *self; qb
     proof('anonymousRespond', 'h_anonymousRespond', 'QXmppSaslServerAnonymous_respond', stubs, (), note='loop-free; this postcondition is the ANONYMOUS clause of the respond contract used in the handlers')
     for h_, cn in (('h_mechPlain', 'QXmppSaslServerPlain_mechanism'), ('h_mechAnonymous', 'QXmppSaslServerAnonymous_mechanism'), ('h_mechDigest', 'QXmppSaslServerDigestMd5_mechanism')):
         proof(cn, h_, cn, [], (), note='loop-free; the override names its mechanism')
+    proof('getDigest', 'h_getDigest', 'QXmppPasswordChecker_getDigest_base', stubs + ['QXmppPasswordChecker_getPassword', 'QXmppPasswordReply_new', 'QXmppPasswordReply_finishLater'], (),
+          note='loop-free; the bundled QXmppPasswordChecker::getDigest: every request, every verdict and secret of the (virtual) account lookup; MD5 / toUtf8 / concatenation uninterpreted')
     proof('checkPassword', 'h_checkPassword', 'QXmppPasswordChecker_checkPassword_base', stubs + ['QXmppPasswordChecker_getPassword', 'QXmppPasswordReply_new', 'QXmppPasswordReply_finishLater'], (),
           note='loop-free; the bundled QXmppPasswordChecker::checkPassword: every request, every verdict and secret of the (virtual) account lookup')
     proof('checkCredentials', 'h_checkCredentials', CC, stubs, (), note='loop-free; every mechanism name, every credential string')
@@ -309,6 +314,15 @@ void h_checkCredentials(void) { gh_havoc(); QXmppIncomingClientPrivate *self; qb
           '(the SASL object no longer holds the user the checker was asked about)' % F2)
     lemma('lemma.request_then_reply.finding-stale', ('F2_ONLY',), 'same lemma restricted to the class of finding %s' % F2, finding=F2)
 
+    p = Proof('lemma.digest_lookup_then_reply', f, 'h_lemma_digest_lookup_then_reply', enforce=None,
+              replace=stubs + ['QXmppPasswordChecker_getPassword', 'QXmppPasswordReply_new', 'QXmppPasswordReply_finishLater'], kind='complete', include_dirs=[QT], timeout=900,
+              loop_contracts=False, defines=['F3_EXCLUDED'],
+              note='two-step lemma over the real bundled getDigest and the real onDigestReply: DIGEST-MD5 verification passes only for a user the checker knows '
+                   'and against the digest of that user\'s password (DIGEST-MD5 respond behind its assumed contract)')
+    p.labels = {}
+    p.expect_post = 3
+    proofs.append(p)
+
     unit_text = rd('model.h') + rd('lemma.h') + rd('callees.h') + open(os.path.join(QT, 'opaque.h')).read()
     return {
         'proofs': proofs, 'functions': b.functions, 'dropped': b.dropped, 'fired': b.fired, 'hooks': [],
@@ -323,7 +337,10 @@ ASSUMED = [
     'A-QTIMER, A-QSSL, A-QOBJECT (units/C16/model.h): timer, socket flush/startServerEncryption, setParent/deleteLater/dynamic properties act on their own object only; sender() is the reply whose finished() runs the slot',
     'in the connection handlers QXmppSaslServer::respond (virtual) obeys the contract of the override of the object\'s mechanism: PLAIN never Succeeded and ANONYMOUS Succeeded exactly at step 0 / names no user (both verified on the real overrides), DIGEST-MD5 any verdict with Succeeded only after step >= 1 (assumed; its Succeeded rests on the digest of the checker\'s secret handed over by onDigestReply); virtual dispatch selects the override whose mechanism() names the object\'s mechanism (the three mechanism() overrides are verified); create() returns nullptr or a new step-0 object of one of the three mechanisms with the requested name (assumed, std::make_unique chain not lowered); every SASL object is installed by handleStanza, which calls respond() on it at once (AST inventory + verified invariant), handleStream only removes it; username()/password()/realm()/setUsername()/setPassword()/setRealm()/setPasswordDigest() are field accessors',
     'A-SPLIT: QByteArray::split yields at least one part; the parts and their number, and QString::fromUtf8, are functions of the bytes (uninterpreted)',
-    'inside the bundled checkPassword: getPassword() (virtual account lookup) returns any verdict and secret; new QXmppPasswordReply starts with NoError / not finished (its constructor\'s initialisers); finishLater() only schedules finished()',
+    'A-HASH: QCryptographicHash::hash and QString::toUtf8 are functions of their operands; a digest and the encoding of a non-empty string are non-empty',
+    'the reply consumed by onDigestReply obeys the contract of getDigest (no digest unless NoError): verified for the bundled QXmppPasswordChecker::getDigest, assumed for application subclasses that override getDigest',
+    'DIGEST-MD5 respond (assumed, read from QXmppSaslServerDigestMd5::respond): never sets a password, never steps back, asks for input while it has neither password nor digest, goes from step 1 to step 2 only by verifying the client\'s response against the stored digest, says Succeeded only from step 2',
+    'inside the bundled checkPassword / getDigest: getPassword() (virtual account lookup) returns any verdict and secret; new QXmppPasswordReply starts with NoError / not finished (its constructor\'s initialisers); finishLater() only schedules finished()',
     'QXmppPasswordChecker::checkPassword / getDigest (virtual, asynchronous) return a new reply object for the request; the reply that later runs a slot answers the request recorded for it (gh_sender_req_*)',
     'XmppSocket::sendData / disconnectFromHost are the only way bytes / a close reach the peer (event counters); payloads are classified by the C++ type passed to serializeXml',
     'sendStreamFeatures() transmits one <stream:features/> and changes no connection state (contract, body not verified here)',
@@ -335,7 +352,7 @@ ASSUMED = [
 ]
 NOT_COVERED = [
     'QXmppServer::routeData / routing tables, S2S, presence broadcasting: what happens to an element after elementReceived',
-    'DIGEST-MD5 server arithmetic (QXmppSaslServerDigestMd5::respond, the only mechanism that can say Succeeded on a non-anonymous user) and QXmppPasswordChecker::getDigest',
+    'DIGEST-MD5 server arithmetic (QXmppSaslServerDigestMd5::respond, the only mechanism that can say Succeeded on a non-anonymous user): that the comparison it makes is the RFC 2831 response computation',
     'byte-level behaviour of QByteArray::split / QString::fromUtf8 (Qt) behind A-SPLIT; application subclasses of QXmppPasswordChecker',
     'handleStream (stream header, domain check) and sendStreamFeatures bodies',
     'histories: the contracts are per call over every connection state; no inductive lemma over sequences of calls is proved here',
@@ -354,6 +371,12 @@ REPLAY_MODES = {
     'post.routed_stanza_carries_the_senders_own_full_or_bare_address': ['spoof-from', 'prefix-from', 'good-from'],
     'post.client_supplied_own_address_is_kept_and_a_missing_one_is_stamped': ['good-from', 'spoof-from'],
     'post.sasl_success_authenticates_only_for_a_mechanism_backed_by_the_password_checker': ['anonymous-auth'],
+    'post.the_reply_carries_a_digest_only_if_the_lookup_reported_NoError_otherwise_it_passes_the_error_on': ['digest-unknown-user'],
+    'post.for_a_known_user_the_digest_is_md5_of_user_domain_and_the_stored_secret': ['digest-known-user', 'digest-unknown-user'],
+    'lemma.digest_md5_verification_passes_only_for_a_user_the_checker_knows_and_against_the_digest_of_that_users_password': ['digest-unknown-user', 'digest-known-user'],
+    'lemma.a_digest_reaches_the_sasl_object_only_from_a_lookup_that_knows_the_user': ['digest-unknown-user'],
+    'post.a_non_empty_digest_reaches_the_sasl_object_only_from_a_lookup_that_reported_NoError': ['digest-unknown-user'],
+    'post.digest_md5_passes_verification_only_for_a_user_the_checker_knows_and_against_the_digest_the_checker_replied': ['digest-unknown-user'],
     'post.identity_assigned_only_on_the_checkers_approval': ['wrong-password'],
     'lemma.approval_is_credited_to_exactly_the_user_and_domain_the_checker_was_asked_about': ['wrong-password', 'pipelined-auth', 'slow-fail-impersonation'],
     'post.success_announced_only_on_approval': ['wrong-password'],
@@ -361,7 +384,7 @@ REPLAY_MODES = {
 }
 # modes that show a recorded finding: they reproduce on the unchanged tree, so they say nothing about a violation found outside that finding's class
 FINDING_MODES = {'unauth-message': F1, 'unauth-bind': F1, 'unauth-session': F1, 'pipelined-auth': F2, 'slow-fail-impersonation': F2, 'restart-pending-reply': F3}
-ALL_MODES = ['prefix-from', 'anonymous-auth', 'wrong-password', 'unauth-message', 'unauth-bind', 'unauth-session', 'spoof-from', 'good-from', 'pipelined-auth', 'slow-fail-impersonation', 'restart-pending-reply']
+ALL_MODES = ['digest-unknown-user', 'digest-known-user', 'prefix-from', 'anonymous-auth', 'wrong-password', 'unauth-message', 'unauth-bind', 'unauth-session', 'spoof-from', 'good-from', 'pipelined-auth', 'slow-fail-impersonation', 'restart-pending-reply']
 
 
 def run_mode(mode):
